@@ -74,6 +74,12 @@ def run(ctx):
               "P": Proto("Order", [("u", N("User")), ("s", S(N("Box", (N("Local"),), "Lib")))])}
         asts.append(("importedgeneric%d" % i, Pkg("Demo", [ds[n] for n in order], [lib])))
 
+    # containers of optionals nested in containers: the short spellings (int?**, string->int?*, int?*?) and the expanded ones must agree
+    oi = Opt(P("int32"))
+    zoo = Rec("Zoo", [("vv", V(V(oi))), ("av", A(V(oi), None)), ("va", V(A(oi, None))), ("vfv", V(V(oi, 3))), ("mv", M(P("string"), V(oi))), ("ov", Opt(V(oi))), ("vov", V(Opt(V(P("int32"))))),
+                      ("mm", M(P("string"), M(P("int32"), oi))), ("vu", V(U(((None, P("int32")), (None, P("string")))))), ("ovu", Opt(V(U(((None, P("int32")), (None, P("string")))))))])
+    asts.append(("nestingzoo", Pkg("ZooPkg", [zoo, Proto("ZooP", [("z", N("Zoo")), ("s", S(V(V(oi)))), ("o", Opt(V(oi))), ("m", M(P("string"), V(oi)))])])))
+
     def one(item):
         key, pkg = item
         r = rng("C13", key)
